@@ -251,7 +251,9 @@ def registry_obj(active, requested=255):
 
 
 def check_is_active(run, F):
-    spec = lambda active, id: None if id == 255 else (active == id)
+    # one and the same answer from the machine and from every control flavour, for every id -- the invalid id (the root head's) included:
+    # the comparison of the active slot with the id, nothing else
+    spec = lambda active, id: (active == id)
     targets = []
     for fn in F.find('R_', 'isActive'):
         if len(fn.params) == 1:
